@@ -287,6 +287,19 @@ class Gen:
                     if r.random() < 0.5:
                         R.append("R tm %d 0 1 tm_reg %d 1 0 %d" % (t, u, r.randint(1, 30) * 5000000))
             maxwait = 30
+        elif mode == "timers" and self.n["tm"] and self.n["fd"] and r.random() < 0.2:
+            # the kernel timer is armed for the only timer, the timer is taken away, its (stale) expiry passes
+            # while the loop is busy, then another timer is registered: the loop must still wake up for it
+            f = self.pick_obj("fd")
+            t1, t2 = 1, min(2, self.n["tm"])
+            k = r.randint(6, 9)
+            L += ["S tm_reg %d 1 0 %d" % (t1, r.choice([20, 40]) * 1000000), "S fd_newos %d" % f, "S fd_reg %d 1 0 0" % f]
+            R += ["R fd %d 1 0 drain %d" % (f, f), "R fd %d 1 %d tm_unreg %d" % (f, k, t1),
+                  "R fd %d 1 %d tm_reg %d 1 0 %d" % (f, k + 3, t2, r.choice([30, 50, 200]) * 1000000)]
+            for q in range(1, 14):
+                L.append("E %d pwrite %d 1" % (q, f))
+            L.append("E %d advance 0 %d" % (k + 1, r.choice([45, 60]) * 1000000))
+            maxwait = 30
         elif mode == "timers" and self.n["tm"]:
             base = r.choice(EXPIRIES)
             for t in range(1, self.n["tm"] + 1):
@@ -475,9 +488,36 @@ def fixed_fd_scripts(prefix, methods=METHODS):
     return out
 
 
+def fixed_tm_scripts(prefix, methods=METHODS):
+    """hand-written timer scenarios around the kernel timer of the epoll-timerfd back end (they run on
+    every method): the timer is armed after five wake-ups with the same soonest deadline"""
+    out = []
+    n = 0
+    for k, later, t2 in ((7, 3, 50), (6, 2, 30), (9, 4, 200)):
+        for m in methods:
+            n += 1
+            # the only timer is taken away, its stale expiry passes while the loop is busy, a new timer appears
+            L = ["B %st%d.stale-kernel-timer.%s method=%s seed=%d maxwait=30" % (prefix, n, m, m, n), "O fd 1 pr", "O tm 1", "O tm 2",
+                 "S tm_reg 1 1 0 20000000", "S fd_reg 1 1 0 0", "R fd 1 1 0 drain 1", "R fd 1 1 %d tm_unreg 1" % k,
+                 "R fd 1 1 %d tm_reg 2 1 0 %d" % (k + later, t2 * 1000000)]
+            L += ["E %d pwrite 1 1" % q for q in range(1, k + later + 2)]
+            L.insert(9 + k, "E %d advance 0 45000000" % (k + 1))
+            out.append("\n".join(L + ["X"]) + "\n")
+            n += 1
+            # an earlier timer (earlier by whole seconds, later within the second) appears once the kernel timer is armed
+            L = ["B %st%d.earlier-timer.%s method=%s seed=%d maxwait=30" % (prefix, n, m, m, n), "O fd 1 pr", "O tm 1", "O tm 2",
+                 "S tm_reg 1 1 6 100000000", "S fd_reg 1 1 0 0", "R fd 1 1 0 drain 1",
+                 "R fd 1 1 %d tm_reg 2 1 1 900000000" % k]
+            L += ["E %d pwrite 1 1" % q for q in range(1, k + 3)]
+            out.append("\n".join(L + ["X"]) + "\n")
+    return out
+
+
 def gen_scripts(seed, count, methods=METHODS, kinds=None, faultgen=None, prefix="r", modes=None, nfd=3):
     """count scripts, each instantiated for every method (same program)."""
     out = fixed_fd_scripts(prefix, methods) if (kinds is None or "fd" in kinds) else []
+    if kinds is None or ("fd" in kinds and "tm" in kinds):
+        out += fixed_tm_scripts(prefix, methods)
     for i in range(count):
         rs = random.Random((seed << 20) + i)
         g = Gen(rs, kinds=kinds, modes=modes, nfd=nfd)
